@@ -5,7 +5,7 @@
    strictly before the recovery". *)
 From EoNV Require Import Prelude Samp Graph ListDict ListDictP Gillespie KldP GillespieInv SampP GillespieP GillespieLog.
 From EoNV Require Import Investigation InvestigationP GillespieC10.
-From EoNV Require Import EventSIS EventSISP EventSISP4 EventSISRows EventSISLog EventSISTrace EventSISRel EventSISFast EventSISNM EventSISOut.
+From EoNV Require Import EventSIS EventSISP EventSISP4 EventSISRows EventSISLog EventSISTrace EventSISRel EventSISFast EventSISNM EventSISOut EventSISClock EventSISProv.
 From Coq Require Import Sorted Lqa.
 
 Definition adjp (u : node) : list node :=
@@ -79,3 +79,36 @@ Proof.
   destruct nm_out as [out|e] eqn:E; [|vm_compute in E; discriminate E].
   exists out. split; [reflexivity|]. vm_compute in E. injection E as <-. split; reflexivity.
 Qed.
+
+(* ---------------- a tie: a delay EQUAL to the duration ---------------- *)
+(* two nodes 0 - 1; node 0 is infectious for exactly 1 and its only delay to node 1 is 1:
+   inside the documented contract read as "<=", outside its strict form *)
+Definition adj2 (u : node) : list node := match u with 0%N => [1%N] | 1%N => [0%N] | _ => [] end.
+Definition g2 : graph := mkGraph [0%N;1%N] adj2 adj2 false (fun _ _ => 1) (fun _ => 1) false false.
+Definition durT (u : node) (k : nat) : Q := match u with 0%N => 1 | _ => 5 end.
+Definition delT (u v : node) (k : nat) : list Q := match u, v with 0%N, 1%N => [1] | _, _ => [] end.
+
+Lemma g2_nodup : NoDup (gnodes g2).
+Proof. cbn. repeat constructor; cbn; intuition discriminate. Qed.
+Lemma g2_adj : forall u v, In v (gadj g2 u) -> In v (gnodes g2).
+Proof.
+  intros u v H. cbn [gadj g2 gnodes] in *. unfold adj2 in H.
+  destruct u as [|[p|p|]]; cbn in H; intuition (subst; cbn; auto).
+Qed.
+Lemma i0_ok2 : NoDup [0%N] /\ incl [0%N] (gnodes g2).
+Proof. split; [repeat constructor; intros []|]. intros x [<-|[]]. cbn. auto. Qed.
+Lemma exT_rules_ok : rules_ok durT delT.
+Proof.
+  split.
+  - intros v k. unfold durT. destruct v as [|p]; lra.
+  - intros v w k. unfold delT. destruct v as [|p]; [destruct w as [|[q|q|]]|]; split; repeat constructor; lra.
+Qed.
+Lemma exT_rules_contract : rules_contract durT delT.
+Proof.
+  intros v w k d H. unfold delT in H. unfold durT.
+  destruct v as [|p]; [destruct w as [|[q|q|]]|]; cbn in H; intuition (subst; lra).
+Qed.
+Lemma exT_not_strict : ~ rules_strict durT delT.
+Proof. intro H. specialize (H 0%N 1%N O 1 (or_introl eq_refl)). cbn in H. lra. Qed.
+Lemma exS_rules_contract : rules_contract durS delS.
+Proof. intros v w k d H. pose proof (exS_rules_strict v w k d H). lra. Qed.
